@@ -4,8 +4,9 @@ patch="$1"; shift
 wt=$(mktemp -d /tmp/seedwt_XXXXXX); rmdir "$wt"
 git -C /repo worktree add -q --detach "$wt" HEAD || exit 2
 if ! git -C "$wt" apply "$patch"; then echo "PATCH DOES NOT APPLY"; git -C /repo worktree remove --force "$wt"; exit 2; fi
+scratch=$(mktemp -d /tmp/seedev_XXXXXX)
 for c in "$@"; do
-  out=$(VERIF_REPO="$wt" /verif/check "$c" --tier "${TIER:-quick}" 2>&1); rc=$?
+  out=$(VERIF_EVIDENCE_DIR="$scratch/evidence" VERIF_REPLAYS_DIR="$scratch/replays" VERIF_REPO="$wt" /verif/check "$c" --tier "${TIER:-quick}" 2>&1); rc=$?
   echo "== $c rc=$rc $(echo "$out" | grep -c '^VIOLATION') violations"; echo "$out" | grep -A1 "^  key:" | head -${SHOW:-6} | cut -c1-300; echo "$out" | tail -1
 done
-git -C /repo worktree remove --force "$wt"
+git -C /repo worktree remove --force "$wt"; rm -rf "$scratch"
